@@ -19,7 +19,9 @@ OPS = ['>', '=', '<', '>=', '<=']
 CLASS_SYMS = ['$', '&', 'X', 'M', 'any atom', 'heteroatom', 'heavy atom']
 ELEM_SYMS = ['C', 'O', 'N', 'H', 'Pt', 'S', 'P', 'Cl', 'Si', 'Ru']
 LOWER_SYMS = ['c', 'n', 'o']
-LABEL_POOL = ['c1', 'c2', 'c3', 'a', 'b', 'x_1', 'Atom2', '_z', 'q9', 'C', 'H1', 'o', 'n7', 'lab', 'r2d2', 'A_b_C', 'm', 'k0']
+# `AtomLabel` (the grammar's own rule name) is an ordinary label since the repair of FM2; it is in the pool so that random
+# fragments and alpha-renamings use it in every position
+LABEL_POOL = ['c1', 'c2', 'c3', 'a', 'b', 'x_1', 'Atom2', '_z', 'q9', 'C', 'H1', 'o', 'n7', 'lab', 'r2d2', 'A_b_C', 'm', 'k0', 'AtomLabel']
 
 
 def atomtype_text(t):
@@ -131,7 +133,7 @@ def rand_cn(rng, small=True):
     return (op, rng.choice([0, 1, 1, 2, 2, 3, 4, 5, 6] if small else list(range(10))))
 
 
-def rand_sym(rng, lower_ok=False, weights=None):
+def rand_sym(rng, lower_ok=True, weights=None):
     r = rng.random()
     if r < 0.62:
         return rng.choice(['C', 'C', 'C', 'C', 'O', 'N', 'H', 'H', 'Pt'] + ELEM_SYMS)
@@ -142,7 +144,7 @@ def rand_sym(rng, lower_ok=False, weights=None):
     return rng.choice(['C', 'Qq', 'Cl'])
 
 
-def rand_atomtype(rng, lower_ok=False, star_ok=True):
+def rand_atomtype(rng, lower_ok=True, star_ok=True):
     t = {'prefix': None, 'sym': rand_sym(rng, lower_ok), 'suffix': None}
     if rng.random() < 0.25:
         t['prefix'] = rng.choice(ATOM_PREFIX)
@@ -153,7 +155,7 @@ def rand_atomtype(rng, lower_ok=False, star_ok=True):
     return t
 
 
-def rand_cons(rng, lower_ok=False):
+def rand_cons(rng, lower_ok=True):
     k = rng.random()
     neg = rng.random() < 0.35
     if k < 0.5:
@@ -177,7 +179,7 @@ def rand_molprefix(rng):
     return out
 
 
-def rand_fragment(rng, natoms=None, lower_ok=False, stereo_ok=True):
+def rand_fragment(rng, natoms=None, lower_ok=True, stereo_ok=True):
     n = natoms or rng.choice([1, 1, 2, 2, 2, 3, 3, 3, 4, 4, 5, 6, 7, 8])
     labels = rng.sample(LABEL_POOL, n)
     items = []
@@ -257,11 +259,20 @@ def dup_label_fragment(rng):
 
 
 def atomlabel_fragment(rng):
-    """an atom that is called `AtomLabel` (finding FM2 when another bonded atom follows)"""
-    l2 = rng.choice(LABEL_POOL)
-    items = [('atom', dict(prefix=None, sym='C', suffix=None, label='AtomLabel', chain=[], bond=None))]
-    if rng.random() < 0.8:
+    """an atom that is called `AtomLabel` with bonded atoms after it (the class of the repaired finding FM2), also declared
+    twice / referred to from a ring bond"""
+    l2, l3 = rng.sample([x for x in LABEL_POOL if x != 'AtomLabel'], 2)
+    items = [('atom', dict(prefix=None, sym='C', suffix=rng.choice([None, None, '?']), label='AtomLabel', chain=[], bond=None))]
+    if rng.random() < 0.9:
         items.append(('atom', dict(prefix=None, sym=rng.choice(['C', 'H', 'O']), suffix=None, label=l2, chain=[], bond=('single', 'AtomLabel'))))
+        r = rng.random()
+        if r < 0.3:
+            items.append(('atom', dict(prefix=None, sym=rng.choice(['C', 'H', '$']), suffix=None, label=l3, chain=[], bond=(rng.choice(['single', 'any']), rng.choice([l2, 'AtomLabel'])))))
+        elif r < 0.5:
+            items.append(('atom', dict(prefix=None, sym='C', suffix='?', label='AtomLabel', chain=[], bond=(rng.choice(['single', 'double', 'any']), l2))))
+        elif r < 0.65:
+            items.append(('atom', dict(prefix=None, sym='C', suffix='?', label=l3, chain=[], bond=('any', l2))))
+            items.append(('ringbond', l3, 'any', 'AtomLabel'))
     return {'molprefix': [], 'name': 'al', 'items': items}
 
 
@@ -283,6 +294,17 @@ def small_fragments(thorough=False):
             out.append(frag([atom(s, suffix=sf)]))
         for p in ATOM_PREFIX:
             out.append(frag([atom(s, prefix=p)]))
+    # lower-case (aromatic) element symbols (F22, repaired): symbol x suffix / prefix, pairs over an aromatic / any bond
+    for s in LOWER_SYMS + ['pt']:
+        for sf in [None] + SUFFIX:
+            out.append(frag([atom(s, suffix=sf)]))
+        for p in ATOM_PREFIX:
+            out.append(frag([atom(s, prefix=p)]))
+        for s2 in ['c', 'C', 'H', 'n']:
+            for bw in ['aromatic', 'any', 'single', 'ring']:
+                out.append(frag([atom(s, suffix='?', label='c1'), atom(s2, suffix='?', label='c2', bond=(bw, 'c1'))]))
+        for neg in (False, True):
+            out.append(frag([atom('C', suffix='?', chain=[('conn', neg, ('>=', 1), dict(prefix=None, sym=s, suffix='?'), 'any')])]))
     # molecule prefixes: every legal combination
     for c in [None] + CHARGE_PREFIX:
         for k in [None] + KIND_PREFIX:
